@@ -74,38 +74,49 @@ def open_descriptors(path):
     return out
 
 
+def _rows(v):
+    """Number of rows of a per-atom value; -1 when it has none (a scalar, a 0-d array)."""
+    try:
+        return len(v)
+    except TypeError:
+        return -1
+
+
 def consistent(obj):
     """Problems with mutually inconsistent shapes in a returned IOData object."""
     out = []
-    n = obj.natom
+    try:
+        n = obj.natom
+    except Exception as exc:  # noqa: BLE001
+        return [f"natom raises {exc!r}"]
     if n is not None:
         for name in ("atcoords", "atnums", "atmasses", "atgradient", "atfrozen"):
             v = getattr(obj, name)
-            if v is not None and len(v) != n:
-                out.append(f"{name} has {len(v)} rows for {n} atoms")
-        if obj.atcorenums is not None and len(obj.atcorenums) != n:
+            if v is not None and _rows(v) != n:
+                out.append(f"{name} has {_rows(v)} rows for {n} atoms")
+        if obj.atcorenums is not None and _rows(obj.atcorenums) != n:
             out.append("atcorenums length")
         for k, v in (obj.atcharges or {}).items():
-            if hasattr(v, "__len__") and len(v) != n:
-                out.append(f"atcharges[{k}] has {len(v)} entries for {n} atoms")
+            if _rows(v) != n:
+                out.append(f"atcharges[{k}] has {_rows(v)} entries for {n} atoms")
         for k, v in (obj.atffparams or {}).items():  # force-field parameters are per-atom by definition
-            if hasattr(v, "__len__") and len(v) != n:
-                out.append(f"atffparams[{k}] has {len(v)} entries for {n} atoms")
+            if _rows(v) != n:
+                out.append(f"atffparams[{k}] has {_rows(v)} entries for {n} atoms")
         for k in PER_ATOM_EXTRA:  # per-atom columns the loaders document under these names
             v = (obj.extra or {}).get(k)
-            if v is not None and hasattr(v, "__len__") and len(v) != n:
-                out.append(f"extra[{k}] has {len(v)} entries for {n} atoms")
-        if obj.athessian is not None and obj.athessian.shape != (3 * n, 3 * n):
-            out.append(f"athessian shape {obj.athessian.shape} for {n} atoms")
+            if v is not None and _rows(v) != n:
+                out.append(f"extra[{k}] has {_rows(v)} entries for {n} atoms")
+        if obj.athessian is not None and getattr(obj.athessian, "shape", None) != (3 * n, 3 * n):
+            out.append(f"athessian shape {getattr(obj.athessian, 'shape', None)} for {n} atoms")
     if obj.mo is not None and obj.obasis is not None and obj.mo.coeffs is not None and obj.mo.kind != "generalized":
         try:
             nb = obj.obasis.nbasis
         except Exception as exc:  # noqa: BLE001
             out.append(f"obasis.nbasis raises {exc!r}")
             nb = None
-        if nb is not None and obj.mo.coeffs.shape[0] != nb:
-            out.append(f"mo.coeffs has {obj.mo.coeffs.shape[0]} rows for {nb} basis functions")
-    if obj.cube is not None and obj.cube.data.ndim != 3:
+        if nb is not None and (getattr(obj.mo.coeffs, "ndim", 0) != 2 or obj.mo.coeffs.shape[0] != nb):
+            out.append(f"mo.coeffs has shape {getattr(obj.mo.coeffs, 'shape', None)} for {nb} basis functions")
+    if obj.cube is not None and getattr(obj.cube.data, "ndim", None) != 3:
         out.append("cube data not 3-D")
     return out
 
